@@ -22,11 +22,22 @@
    193-210) in the canonical depth-first schedule calc_dep, task_dep, first select, setup-tasks,
    second select (_get_task_args), execution.  Every effect on the DB goes through History.step
    (Check / SaveOk / Remove / SetDef), so that every state it reaches is the state of a history.
+   The run is the one of `doit run --continue` (a failure does not stop the loop).  [tr_vals] is
+   Task.values of the in-memory Task object ({} | get_values when up-to-date | what the actions
+   returned + value-savers once they succeeded): it is what a calc_dep consumer reads
+   (control.py 616), also when save_success failed afterwards.
    What is not modelled: task params / pos_arg (options start empty), **kwargs-taking callables,
    uptodate / calc_dep / setup entries contributed by a calc task (only file_dep and task_dep are),
    result_dep on a GROUP source (Status.UResultDep is the single-task form: the correspondence
    check gives group sources as explicit setup-tasks, for which no result_dep is added).
-   Values are numbers: a list saved under 'file_dep' / 'task_dep' is coded as a bit mask. *)
+   Values are numbers: a list saved under 'file_dep' / 'task_dep' is coded as a bit mask.
+   [iver] selects the code version of _get_task_args.  [icurrent] is /repo HEAD, after the two
+   `fix:` commits this model led to; [ilegacy] is the code before them (kept so that the defects
+   stay stated, Properties/C10.v `..._legacy_refuted`):
+     fixDict  (cdbba24): key None (whole dict) on a task without a DB record raises like a single key
+                         does, instead of answering {};
+     fixGroup (a0cd6c8): for a group source only the task_dep entries named `<group>:...` are read,
+                         not every task_dep of the group. *)
 From DoitV Require Export Base Status History.
 Open Scope Z_scope.
 
@@ -37,12 +48,17 @@ Inductive sval := SVal (x : option N) | SDict (v : vals).
 Inductive aval := ASingle (s : sval) | AGroup (l : list (name * sval)).
 Inductive gerr := ENoRecord (t : name) | ENoKey (t : name) (k : N).
 
+Record iver := { fixDict : bool; fixGroup : bool }.
+Definition icurrent : iver := {| fixDict := true; fixGroup := true |}.
+Definition ilegacy : iver := {| fixDict := false; fixGroup := false |}.
+
 Definition db_in (d : db) (t : name) : bool := match d t with Some _ => true | None => false end.   (* backend.in_ *)
 
 (* the local get_value of _get_task_args (79-83) over Dependency.get_value (570-583) *)
-Definition get_value (d : db) (t : name) (key : option N) : sval + gerr :=
+Definition get_value (iv : iver) (d : db) (t : name) (key : option N) : sval + gerr :=
   match key with
-  | None => inl (SDict (get_values d t))                       (* `values or {}`: never raises *)
+  | None => if fixDict iv && negb (db_in d t) then inr (ENoRecord t)   (* runner.py 82-85 *)
+            else inl (SDict (get_values d t))                          (* `values or {}` *)
   | Some k =>
       if negb (db_in d t) then inr (ENoRecord t)               (* "taskid '%s' has no computed value!" *)
       else match vget (get_values d t) k with
@@ -51,32 +67,33 @@ Definition get_value (d : db) (t : name) (key : option N) : sval + gerr :=
            end
   end.
 
-(* 89-95: a group source: one entry per element of the group's task_dep (all of them), in order *)
-Fixpoint get_group (d : db) (subs : list name) (key : option N) : list (name * sval) + gerr :=
+(* 93-101: a group source: one entry per element of [subs], in order.  [subs] = the group's task_dep
+   entries whose name starts with `<group>:` (legacy: every task_dep of the group), see [grp_of] *)
+Fixpoint get_group (iv : iver) (d : db) (subs : list name) (key : option N) : list (name * sval) + gerr :=
   match subs with
   | [] => inl []
   | sub :: r =>
-      match get_value d sub key with
+      match get_value iv d sub key with
       | inr e => inr e
-      | inl x => match get_group d r key with inr e => inr e | inl l => inl ((sub, x) :: l) end
+      | inl x => match get_group iv d r key with inr e => inr e | inl l => inl ((sub, x) :: l) end
       end
   end.
 
-(* [grp t] = Some (tasks_dict[t].task_dep) when tasks_dict[t].has_subtask *)
-Definition arg_value (d : db) (grp : name -> option (list name)) (g : getarg) : aval + gerr :=
+(* [grp t] = Some (the entries of tasks_dict[t].task_dep that are read) when tasks_dict[t].has_subtask *)
+Definition arg_value (iv : iver) (d : db) (grp : name -> option (list name)) (g : getarg) : aval + gerr :=
   match grp (ga_src g) with
-  | Some subs => match get_group d subs (ga_key g) with inl l => inl (AGroup l) | inr e => inr e end
-  | None => match get_value d (ga_src g) (ga_key g) with inl x => inl (ASingle x) | inr e => inr e end
+  | Some subs => match get_group iv d subs (ga_key g) with inl l => inl (AGroup l) | inr e => inr e end
+  | None => match get_value iv d (ga_src g) (ga_key g) with inl x => inl (ASingle x) | inr e => inr e end
   end.
 
 (* the loop 86-98 over task.getargs.items(); the first exception leaves it *)
-Fixpoint get_task_args (d : db) (grp : name -> option (list name)) (gas : list getarg) : list (N * aval) + gerr :=
+Fixpoint get_task_args (iv : iver) (d : db) (grp : name -> option (list name)) (gas : list getarg) : list (N * aval) + gerr :=
   match gas with
   | [] => inl []
   | g :: r =>
-      match arg_value d grp g with
+      match arg_value iv d grp g with
       | inr e => inr e
-      | inl a => match get_task_args d grp r with inr e => inr e | inl l => inl ((ga_arg g, a) :: l) end
+      | inl a => match get_task_args iv d grp r with inr e => inr e | inl l => inl ((ga_arg g, a) :: l) end
       end
   end.
 
@@ -145,10 +162,11 @@ Record itask := {
   i_task_dep : list name;     (* task.task_dep after TaskControl.__init__ (sub-tasks of a group included) *)
   i_calc_dep : list name;
   i_group : bool;             (* has_subtask *)
+  i_sub_of : option name;     (* Some g: the task's name is `<g>:...` (it is a sub-task of g) *)
   i_params : list N           (* what the instrumented action asks for *)
 }.
 Definition no_task : itask :=
-  {| i_getargs := []; i_setup := []; i_task_dep := []; i_calc_dep := []; i_group := false; i_params := [] |}.
+  {| i_getargs := []; i_setup := []; i_task_dep := []; i_calc_dep := []; i_group := false; i_sub_of := None; i_params := [] |}.
 
 (* node.run_status at the end, failures by cause:
    1 action failed | 40 UnmetDependency | 41 DependencyError of get_status (missing file dep) |
@@ -156,13 +174,13 @@ Definition no_task : itask :=
 Inductive rstat := RNone | RUpToDate | RIgnore | RSuccess | RFail (code : Z).
 Definition is_fail (r : rstat) : bool := match r with RFail _ => true | _ => false end.
 Definition is_ign (r : rstat) : bool := match r with RIgnore => true | _ => false end.
-Definition vals_visible (r : rstat) : bool := match r with RSuccess | RUpToDate => true | _ => false end.   (* task.values is set *)
 
 Record trep := {
   tr_st : rstat;
   tr_verdict : option (status * list file);     (* get_status(...).status and task.dep_changed *)
-  tr_kw : option (list (N * kwval)) }.          (* kwargs of the executed action *)
-Definition no_rep : trep := {| tr_st := RNone; tr_verdict := None; tr_kw := None |}.
+  tr_kw : option (list (N * kwval));            (* kwargs of the executed action *)
+  tr_vals : vals }.                             (* task.values of the Task object (in memory) *)
+Definition no_rep : trep := {| tr_st := RNone; tr_verdict := None; tr_kw := None; tr_vals := [] |}.
 
 Record xstate := { x_s : state; x_ops : list op; x_rep : name -> trep }.
 
@@ -170,6 +188,7 @@ Section Run.
 Variable md5 : N -> N.
 Variable size_of : N -> Z.
 Variable v : ver.
+Variable iv : iver.
 Variable tab : name -> itask.
 Variable always : bool.
 Variable fails : list name.      (* tasks whose action fails in this run *)
@@ -180,30 +199,40 @@ Definition set_rep (x : xstate) (t : name) (r : trep) : xstate :=
   {| x_s := x_s x; x_ops := x_ops x; x_rep := upd (x_rep x) t r |}.
 Definition st_of (x : xstate) (t : name) : rstat := tr_st (x_rep x t).
 Definition set_st (x : xstate) (t : name) (s : rstat) : xstate :=
-  set_rep x t {| tr_st := s; tr_verdict := tr_verdict (x_rep x t); tr_kw := tr_kw (x_rep x t) |}.
+  set_rep x t {| tr_st := s; tr_verdict := tr_verdict (x_rep x t); tr_kw := tr_kw (x_rep x t); tr_vals := tr_vals (x_rep x t) |}.
+Definition set_vals (x : xstate) (t : name) (vl : vals) : xstate :=
+  set_rep x t {| tr_st := tr_st (x_rep x t); tr_verdict := tr_verdict (x_rep x t); tr_kw := tr_kw (x_rep x t); tr_vals := vl |}.
 (* Runner._handle_task_error: remove_success + failure *)
 Definition fail (x : xstate) (t : name) (code : Z) : xstate := set_st (xstep x (Remove t)) t (RFail code).
 
+Definition is_sub_of (g sub : name) : bool :=
+  match i_sub_of (tab sub) with Some g' => N.eqb g' g | None => false end.          (* sub_id.startswith(g + ':') *)
 Definition grp_of (t : name) : option (list name) :=
-  if i_group (tab t) then Some (i_task_dep (tab t)) else None.
+  if i_group (tab t)
+  then Some (if fixGroup iv then filter (is_sub_of t) (i_task_dep (tab t)) else i_task_dep (tab t))
+  else None.
 
-(* values a finished calc task hands over: task.values = what was saved (executed) / get_values (up-to-date) *)
-Definition calc_vals (x : xstate) (c : name) : vals :=
-  if vals_visible (st_of x c) then get_values (s_db (x_s x)) c else [].
+(* values a finished calc task hands over (control.py 616: node.task.values): {} for a fresh Task
+   object; get_values when found up-to-date (runner.py 150); what the actions returned plus the
+   value-savers once the actions succeeded -- also when save_success then fails (code 44): the values of
+   such a FAILED calc task are merged all the same.  (An action failing after a value-producing one
+   would leave values too; in the modelled tasks the failing action is the first one.) *)
+Definition calc_vals (x : xstate) (c : name) : vals := tr_vals (x_rep x c).
 
 Definition gerr_code (e : gerr) : Z := match e with ENoRecord _ => 42 | ENoKey _ _ => 43 end.
 
 (* second half of select_task (172-179) + execute_task + process_task_result *)
 Definition args_and_execute (x : xstate) (t : name) (changed : list file) : xstate :=
-  match get_task_args (s_db (x_s x)) grp_of (i_getargs (tab t)) with
+  match get_task_args iv (s_db (x_s x)) grp_of (i_getargs (tab t)) with
   | inr e => fail x t (gerr_code e)
   | inl opts =>
       let kw := prepare_kwargs (s_defs (x_s x) t) changed opts (i_params (tab t)) in
-      let x1 := set_rep x t {| tr_st := RNone; tr_verdict := tr_verdict (x_rep x t); tr_kw := Some kw |} in
+      let x1 := set_rep x t {| tr_st := RNone; tr_verdict := tr_verdict (x_rep x t); tr_kw := Some kw; tr_vals := [] |} in
       if mem t fails then fail x1 t 1 else
       let s := x_s x1 in
       let o := snd (process_success md5 v (s_ck s) (s_fs s) (s_db s) t (s_defs s t)) in
-      let x2 := xstep x1 (SaveOk t) in
+      (* Task.execute 499 + save_extra_values 198: task.values, then save_success *)
+      let x2 := xstep (set_vals x1 t (save_extra_values (s_db s) (s_defs s t))) (SaveOk t) in
       match o with
       | SaveDone => set_st x2 t RSuccess
       | SaveMissing _ => fail x2 t 44
@@ -230,12 +259,13 @@ Fixpoint visit (fuel : nat) (x : xstate) (t : name) : xstate :=
     else
       let r := check md5 v (x_s x3) t in
       let x4 := set_rep (xstep x3 (Check t)) t
-                  {| tr_st := RNone; tr_verdict := Some (g_status r, g_changed r); tr_kw := None |} in
+                  {| tr_st := RNone; tr_verdict := Some (g_status r, g_changed r); tr_kw := None; tr_vals := [] |} in
       match g_status r with
       | Error => fail x4 t 41
       | Crash => set_st x4 t (RFail 98)
       | st =>
-        if status_eqb st UpToDate && negb always then set_st x4 t RUpToDate
+        if status_eqb st UpToDate && negb always
+        then set_st (set_vals x4 t (get_values (s_db (x_s x4)) t)) t RUpToDate      (* runner.py 148-151 *)
         else
           (* 153-155, _add_task 509-526: the setup-tasks, then the second pass 157-170 *)
           let x5 := fold_left (visit fuel) (i_setup it) x4 in
@@ -280,6 +310,7 @@ Section Session.
 Variable md5 : N -> N.
 Variable size_of : N -> Z.
 Variable v : ver.
+Variable iv : iver.
 Variable tab : name -> itask.
 Variable ntasks : nat.
 Variable fuel : nat.
@@ -289,7 +320,7 @@ Definition exec_cmd (acc : state * list Z) (c : cmd) : state * list Z :=
   match c with
   | COp o => (step md5 size_of v s o, out)
   | CRun always fails sel =>
-      let x := run_sel md5 size_of v tab always fails fuel s sel in
+      let x := run_sel md5 size_of v iv tab always fails fuel s sel in
       (x_s x, out ++ flat_map (fun i => trep_z (x_rep x (N.of_nat i))) (seq 0 ntasks) ++ [-8])
   end.
 Definition exec_cmds (cs : list cmd) : state * list Z := fold_left exec_cmd cs (init, []).
